@@ -85,6 +85,29 @@ class StubSelf:
     def composite_from_node(self, node):
         return Composite(TypedValue(object), VN, node)
 
+    # for the real NameCheckVisitor._visit_single_compare run on this stub (conditions tagged "via" / "rev"):
+    # the dispatch on which operand is the constant and the two factories are real, the dunder call of the
+    # comparison itself and the unsafe-comparison lint are not part of the narrowing
+    _constraint_from_compare_op = NameCheckVisitor._constraint_from_compare_op
+    _constraint_from_predicate_provider = NameCheckVisitor._constraint_from_predicate_provider
+
+    def check_for_unsafe_comparison(self, op, lhs, rhs, node):
+        return None
+
+    def _visit_binop_internal(self, *args, **kwargs):
+        return TypedValue(bool)
+
+
+def _via_compare(stub, var_value: Value, k, op: str, rev: bool):
+    """constraint of `x OP k` (or `k OP x` when rev) as NameCheckVisitor._visit_single_compare produces it;
+    var_value is the value of the non-constant operand (the variable, or the value of len(x))"""
+    const_node = ast.Constant(value=0)
+    if rev:
+        ret = NameCheckVisitor._visit_single_compare(stub, const_node, KnownValue(k), CMP[op](), NODE, var_value, const_node)
+    else:
+        ret = NameCheckVisitor._visit_single_compare(stub, NODE, var_value, CMP[op](), const_node, KnownValue(k), const_node)
+    return extract_constraints(ret)
+
 
 def prepare(template, data):
     get_checker()
@@ -221,7 +244,13 @@ def build(cond, k1, k2, s1, stub):
     if kind == "cmp":
         op, ckind = cond[1], cond[2]
         k = k1 if ckind == "int" else s1
-        c = NameCheckVisitor._constraint_from_compare_op(stub, NODE, k, CMP[op](), is_right=True)
+        mode = cond[3] if len(cond) > 3 else "direct"
+        if mode == "direct":
+            c = NameCheckVisitor._constraint_from_compare_op(stub, NODE, k, CMP[op](), is_right=True)
+        else:
+            c = _via_compare(stub, TypedValue(object), k, op, mode == "rev")
+        if mode == "rev":  # `k OP x`
+            return c, (lambda o: _py_cmp(op, k, o)), (lambda o: type(o) is type(k) and o == k), (lambda o: type(o) is type(k))
         return c, (lambda o: _py_cmp(op, o, k)), (lambda o: type(o) is type(k) and o == k), (lambda o: type(o) is type(k))
     if kind == "in":
         op = cond[1]
@@ -261,7 +290,15 @@ def build(cond, k1, k2, s1, stub):
         ctx.composites["obj"] = Composite(TypedValue(object), VN, NODE)
         ret = impl._len_impl(ctx)
         pred = ret.constraint
-        c = NameCheckVisitor._constraint_from_predicate_provider(stub, pred, k1, CMP[op]())
+        mode = cond[2] if len(cond) > 2 else "direct"
+        if mode == "direct":
+            c = NameCheckVisitor._constraint_from_predicate_provider(stub, pred, k1, CMP[op]())
+        else:
+            from pyanalyze.stacked_scopes import annotate_with_constraint
+
+            c = _via_compare(stub, annotate_with_constraint(ret.return_value, pred), k1, op, mode == "rev")
+        if mode == "rev":  # `k OP len(x)`
+            return c, (lambda o: _py_cmp(op, k1, len(o))), (lambda o: False), (lambda o: True)
         return c, (lambda o: _py_cmp(op, len(o), k1)), (lambda o: False), (lambda o: True)
     raise AssertionError(cond)
 
@@ -395,7 +432,12 @@ CONDS = (
     + [["is", op, nm] for op in ("is", "isnot") for nm in ("None", "True", "RED")]
     + [["truthy"]]
     + [["isinstance", nm] for nm in ISINSTANCE_SETS]
-    + [["len", op] for op in ("==", "<", ">=")]
+    + [["len", op] for op in ("==", "<", ">=", "!=", "<=", ">")]
+    # the same comparisons through the real NameCheckVisitor._visit_single_compare: constant on the left ("rev":
+    # `k OP x`, `k OP len(x)`) and, as a control of the route, constant on the right ("via")
+    + [["cmp", op, "int", "rev"] for op in ("==", "!=", "<", "<=", ">", ">=")]
+    + [["len", op, "rev"] for op in ("==", "!=", "<", "<=", ">", ">=")]
+    + [["cmp", "<", "int", "via"], ["cmp", "==", "str", "rev"], ["len", ">", "via"]]
     + [["issubclass", nm] for nm in ("A", "B", "int", "A_int")]
 )
 
@@ -435,7 +477,8 @@ def cases(tier: str, seed: int) -> List[Case]:
     for V in VALUES:
         for cond in CONDS:
             idx += 1
-            pinned = cond in (["isinstance", "float"], ["cmp", "!=", "int"], ["is", "isnot", "RED"], ["truthy"])
+            pinned = cond in (["isinstance", "float"], ["cmp", "!=", "int"], ["is", "isnot", "RED"], ["truthy"],
+                              ["cmp", "<", "int", "rev"], ["len", "<", "rev"], ["len", ">=", "rev"])
             if quick and (idx + seed) % 2 != 0 and not pinned:
                 continue
             for pol in (True, False):
